@@ -479,6 +479,8 @@ pub fn execute(plan: &CachePlan) -> RunResult {
     }
     states.push(state_hash(&model, clock::elapsed_nanos()));
     let sim_ms = clock::elapsed_ms();
+    // seam liveness: the cache must have read the virtual clock
+    let clock_reads = clock::reads();
     clock::unset();
     if nontrivial_c05 {
         bump("nontrivial.c05");
@@ -487,6 +489,7 @@ pub fn execute(plan: &CachePlan) -> RunResult {
         bump("nontrivial.c15");
     }
     drop(bump);
+    *stats.entry("seam.clock_reads".to_string()).or_insert(0) += clock_reads;
     RunResult {
         violations: vs,
         nontrivial: nontrivial_c05 || nontrivial_c15,
